@@ -43,6 +43,10 @@ class SessionCache(object):
         # Maps sessionIDs to sessions
         self.entriesDict = {}
 
+        # Number of entriesList items naming a sessionID (more than one
+        # when a session was stored again under the same ID)
+        self.entriesCount = {}
+
         #Circular list of (sessionID, timestamp) pairs
         self.entriesList = [(None,None)] * maxEntries
 
@@ -74,16 +78,27 @@ class SessionCache(object):
         try:
             #Add the new element
             self.entriesDict[bytes(sessionID)] = session
+            self.entriesCount[bytes(sessionID)] = \
+                self.entriesCount.get(bytes(sessionID), 0) + 1
             self.entriesList[self.lastIndex] = (bytes(sessionID), time.time())
             self.lastIndex = (self.lastIndex+1) % len(self.entriesList)
 
             #If the cache is full, we delete the oldest element to make an
             #empty space
             if self.lastIndex == self.firstIndex:
-                del(self.entriesDict[self.entriesList[self.firstIndex][0]])
+                self._remove(self.firstIndex)
                 self.firstIndex = (self.firstIndex+1) % len(self.entriesList)
         finally:
             self.lock.release()
+
+    #Forget the list item at index; the session goes with the last list
+    #item that names its ID (the ID may have been stored more than once)
+    def _remove(self, index):
+        sessionID = self.entriesList[index][0]
+        self.entriesCount[sessionID] -= 1
+        if not self.entriesCount[sessionID]:
+            del(self.entriesCount[sessionID])
+            del(self.entriesDict[sessionID])
 
     #Delete expired items
     def _purge(self):
@@ -96,7 +111,7 @@ class SessionCache(object):
         index = self.firstIndex
         while index != self.lastIndex:
             if currentTime - self.entriesList[index][1] > self.maxAge:
-                del(self.entriesDict[self.entriesList[index][0]])
+                self._remove(index)
                 index = (index+1) % len(self.entriesList)
             else:
                 break
